@@ -71,7 +71,10 @@ def ural():
             sys.path.insert(0, REPO)
         for k in [k for k in sys.modules if k == "ural" or k.startswith("ural.")]:
             del sys.modules[k]
-        import ural as _u
+        try:
+            import ural as _u
+        except Exception as e:  # noqa
+            raise Infra("`import ural` from %s failed (%s: %s): the tree does not even import" % (REPO, type(e).__name__, e))
 
         here = os.path.realpath(os.path.dirname(_u.__file__))
         if not here.startswith(os.path.realpath(REPO)):
@@ -256,7 +259,9 @@ def _work(args):
         "hist": {},
         "samples": [],
         "infra": None,
+        "known": {},
     }
+    kfs = known_findings(pid)
     try:
         all_ops = []
         spans = []
@@ -302,7 +307,10 @@ def _work(args):
             except Exception as e:  # noqa
                 f = "oracle crashed: %s\n%s" % (e, traceback.format_exc()[-800:])
             if f:
-                if len(res["fail"]) < 50:
+                kf = match_known(prop, kfs, c, f) if kfs else None
+                if kf is not None:
+                    res["known"].setdefault(kf["id"], {"case": c, "failure": f})
+                elif len(res["fail"]) < 50:
                     res["fail"].append({"case": c, "failure": f})
                 else:
                     res["fail"].append(None)
@@ -332,7 +340,7 @@ def explore(prop, cases, do_model=True, jobs=NCPU):
     else:
         with ProcessPoolExecutor(max_workers=jobs) as ex:
             results = list(ex.map(_work, [(prop.ID, ch, do_model) for ch in chunks]))
-    tot = {"n": 0, "lines": 0, "disagree": [], "fail": [], "nontrivial": set(), "errors": 0, "hist": {}, "samples": []}
+    tot = {"n": 0, "lines": 0, "disagree": [], "fail": [], "nontrivial": set(), "errors": 0, "hist": {}, "samples": [], "known": {}}
     for r in results:
         if r["infra"]:
             raise Infra(r["infra"])
@@ -341,6 +349,8 @@ def explore(prop, cases, do_model=True, jobs=NCPU):
         tot["errors"] += r["errors"]
         tot["disagree"].extend(r["disagree"])
         tot["fail"].extend(r["fail"])
+        for k, v in r["known"].items():
+            tot["known"].setdefault(k, v)
         tot["nontrivial"].update(r["nontrivial"])
         for k, v in r["hist"].items():
             tot["hist"][k] = tot["hist"].get(k, 0) + v
@@ -441,7 +451,7 @@ def run_check(pid, tier="quick", seed=0, replay=None):
     else:
         cases = list(prop.cases(rng, tier))
     tot = explore(prop, cases, do_model=have_driver) or {
-        "n": 0, "lines": 0, "disagree": [], "fail": [], "nontrivial": set(), "errors": 0, "hist": {}, "samples": []
+        "n": 0, "lines": 0, "disagree": [], "fail": [], "nontrivial": set(), "errors": 0, "hist": {}, "samples": [], "known": {}
     }
     if tot["disagree"]:
         first = next(d for d in tot["disagree"] if d is not None)
@@ -450,6 +460,9 @@ def run_check(pid, tier="quick", seed=0, replay=None):
     # classify oracle failures
     new_fail = []
     seen_known = {}
+    kf_by_id = {k["id"]: k for k in kfs}
+    for kid, f in tot["known"].items():
+        seen_known.setdefault(kid, (kf_by_id[kid], f))
     for f in tot["fail"]:
         if f is None:
             continue
@@ -474,6 +487,8 @@ def run_check(pid, tier="quick", seed=0, replay=None):
         searched = len(cand)
         st = explore(prop, cand, do_model=False)
         if st:
+            for kid, f in st["known"].items():
+                seen_known.setdefault(kid, (kf_by_id[kid], f))
             for f in st["fail"]:
                 if f is None:
                     continue
